@@ -21,6 +21,10 @@ namespace Arc.C24
 
 abbrev Bytes := List UInt8
 
+/-- OWNERSHIP ASSUMPTION of the model: an `Entry` is a value — once a thread holds / has enqueued
+it, its payload bytes never change (in Go the Sender only queues the slice header, so whoever
+passes the slice to the hook must never write to it again; tied to the source by the regenerated
+facts `hookPayloadAppendRawWithMeta = "fresh-make"` / `senderCopiesPayload`). -/
 structure Entry where
   seq : Nat
   payload : Bytes
